@@ -2,7 +2,7 @@
 import z3
 from pyvc.core import *
 from pyvc import lib
-from . import common, filters
+from . import common, filters, httpobj
 from .filters import INFO, UNIQ, P
 
 R_ = 'wpull/processor/rule.py'
@@ -17,13 +17,11 @@ lib.MODULE_CONSTS['PluginFunctions.accept_url'] = const('accept_url')
 
 # the scripting hook is DISCONNECTED (with a hook the user overrides the verdict by design: outside the claim)
 Assumed('wpull/application/hook.py', 'HookDispatcher.call', {'self': TObj('HookDispatcher'), 'name': TStr(), 'a': TAny(), 'b': TAny(), 'c': TAny()},
-        requires=[], ensures=['False'], raises={'HookDisconnected': []}, note='ASSUMPTION: no script is connected to accept_url')
+        defaults={'b': None, 'c': None}, ret=TInt(), requires=[], ensures=['False'], raises={'HookDisconnected': []}, note='ASSUMPTION: no script is connected to accept_url')
 Assumed('wpull/pipeline/session.py', 'ItemSession.request', {'self': TObj('ItemSession')}, ret=TOpt(TObj('HTTPRequest')), is_property=True,
         ensures=['result == self._request'], raises={})
 Assumed('wpull/pipeline/session.py', 'ItemSession.is_virtual', {'self': TObj('ItemSession')}, ret=TBool(), is_property=True,
         ensures=['result == False'], raises={}, note='constant property in ItemSession; a subclass returning True is outside the claim')
-Assumed('wpull/protocol/abstract/request.py', 'URLPropertyMixin.url_info', {'self': TObj('HTTPRequest')}, name='HTTPRequest.url_info',
-        ret=TOpt(TObj('URLInfo')), is_property=True, ensures=['result == self._url_info'], raises={})
 _allowed = z3.Function('robots_allowed', z3.IntSort(), z3.IntSort(), z3.BoolSort())
 SPECFUNS['robots_allowed'] = lambda ex, st, chk, req: VBool(_allowed(chk.term, req.term))
 Assumed('wpull/protocol/http/robots.py', 'RobotsTxtChecker.can_fetch', {'self': TObj('RobotsTxtChecker'), 'request': TObj('HTTPRequest')}, ret=TBool(),
@@ -45,13 +43,13 @@ def waiver(u, r, red):
 
 
 Contract(R_, 'FetchRule.consult_filters',
-    {'self': TObj('FetchRule'), 'url_info': TObj('URLInfo'), 'url_record': TObj('URLRecord'), 'is_redirect': TBool()},
+    {'self': TObj('FetchRule'), 'url_info': TObj('URLInfo'), 'url_record': TObj('URLRecord'), 'is_redirect': TOpt(TBool())},
     ret=TTuple(TBool(), TStr(), TOpt(INFO)), prop='C02', defaults={'is_redirect': False},
     requires=['implies(self._url_filter is not None, %s)' % UNIQ(G)],
     ensures=[('nofilters', 'implies(self._url_filter is None, result[0] and result[1] == "nofilters" and result[2] is None)'),
-             ('sound', waiver('url_info', 'url_record', 'is_redirect')[0]),
-             ('complete', waiver('url_info', 'url_record', 'is_redirect')[1]),
-             ('reason', 'implies(self._url_filter is not None, result[2] is not None and (result[1] == "filters" or (result[1] == "redirect" and is_redirect and result[0])))'),
+             ('sound', waiver('url_info', 'url_record', 'truthy(is_redirect)')[0]),
+             ('complete', waiver('url_info', 'url_record', 'truthy(is_redirect)')[1]),
+             ('reason', 'implies(self._url_filter is not None, result[2] is not None and (result[1] == "filters" or (result[1] == "redirect" and truthy(is_redirect) and result[0])))'),
              ('reason-filters', 'implies(self._url_filter is not None and forall(0, len(%s), lambda j: %s), result[1] == "filters")' % (G, PASS('j', 'url_info', 'url_record')))],
     raises={})
 Contract(R_, 'FetchRule.consult_hook', {'self': TObj('FetchRule'), 'item_session': TObj('ItemSession'), 'verdict': TBool(), 'reason': TStr(), 'test_info': TOpt(INFO)},
@@ -60,9 +58,9 @@ Contract(R_, 'FetchRule.consult_hook', {'self': TObj('FetchRule'), 'item_session
 
 U = 'item_session._request._url_info'
 REQ = ['item_session._request is not None', '%s is not None' % U, 'self._url_filter is not None', UNIQ(G)]
-Contract(R_, 'FetchRule.check_subsequent_web_request', {'self': TObj('FetchRule'), 'item_session': TObj('ItemSession'), 'is_redirect': TBool()},
+Contract(R_, 'FetchRule.check_subsequent_web_request', {'self': TObj('FetchRule'), 'item_session': TObj('ItemSession'), 'is_redirect': TOpt(TBool())},
     ret=TTuple(TBool(), TStr()), prop='C02', defaults={'is_redirect': False}, requires=REQ,
-    ensures=[('sound', waiver(U, 'item_session.url_record', 'is_redirect')[0]), ('complete', waiver(U, 'item_session.url_record', 'is_redirect')[1])],
+    ensures=[('sound', waiver(U, 'item_session.url_record', 'truthy(is_redirect)')[0]), ('complete', waiver(U, 'item_session.url_record', 'truthy(is_redirect)')[1])],
     raises={})
 Contract(R_, 'FetchRule.check_generic_request', {'self': TObj('FetchRule'), 'item_session': TObj('ItemSession')},
     ret=TTuple(TBool(), TStr()), prop='C02', requires=REQ,
